@@ -14,10 +14,21 @@ def plainCh : Ch → Bool
   | .and a b => plainCh a && plainCh b
   | .or a b => plainCh a && plainCh b
 
-/-- a statement of the fragment: a standalone command in ANY capture form, or a plain chain -/
-def plainStmt : Ch → Bool
-  | .cmd _ => true
-  | ch => plainCh ch
+/-- the last operand of a chain: the only one whose value nobody inside the statement asks about -/
+def lastLeaf : Ch → Cmd
+  | .cmd c => c
+  | .and _ b => lastLeaf b
+  | .or _ b => lastLeaf b
+
+/-- a `!()` in that position ends lazily, after the statement; the statement is *quiet* when that end
+would not raise (no `@error_raise`, no failing command under `$XONSH_SUBPROC_CMD_RAISE_ERROR`) -/
+def quiet (fl : Flags) (c : Cmd) : Bool := !(c.form == .object && Spec.raisesAt fl c.rc c.dec)
+
+/-- a statement of the fragment: a standalone command in ANY capture form, or a plain chain; quiet -/
+def plainStmt (fl : Flags) (ch : Ch) : Bool :=
+  (match ch with
+   | .cmd _ => true
+   | ch => plainCh ch) && quiet fl (lastLeaf ch)
 
 /-! ## the three raise sites against the truth table -/
 
@@ -54,10 +65,15 @@ theorem inner_ref (fl : Flags) (is : List Inner) (s : St) :
       · simp
     · simp
 
+/-- what one bare / `![]` / `!()` command leaves behind: a finished pipeline, or — for `!()` — a lazy one
+whose raise site has not run yet -/
 theorem cmd_ref (fl : Flags) (m : Bool) (c : Cmd) (s : St) (hp : c.form = .hidden ∨ c.form = .object) :
     (match Impl.runCmd true fl m c s with
      | .error (r, s') => Spec.runCmd fl c s.log = .error (r, s'.log)
-     | .ok (v, s') => Spec.runCmd fl c s.log = .ok s'.log ∧ v = .pipe c) := by
+     | .ok (v, s') =>
+       (v = .pipe c ∧ Spec.runCmd fl c s.log = .ok s'.log) ∨
+       (v = .lazy c m ∧ c.form = .object ∧ Spec.runCmd fl c s.log =
+          if Spec.raisesAt fl c.rc c.dec then .error (⟨c.rc, c.id⟩, s'.log) else .ok s'.log)) := by
   unfold Impl.runCmd Spec.runCmd
   have hi := inner_ref fl c.inject s
   cases hI : Impl.runInner true fl c.inject s with
@@ -68,71 +84,140 @@ theorem cmd_ref (fl : Flags) (m : Bool) (c : Cmd) (s : St) (hp : c.form = .hidde
   | ok s1 =>
     rw [hI] at hi; simp only [] at hi
     simp only [hi, pipeRaise_eq]
-    cases h1 : Spec.raisesAt fl c.rc c.dec
-    · rcases hp with hp | hp <;> simp [hp]
-    · simp
+    rcases hp with hp | hp
+    · simp only [hp]
+      cases h1 : Spec.raisesAt fl c.rc c.dec <;> simp
+    · simp only [hp]
+      simp
 
-theorem eval_ref (fl : Flags) (ch : Ch) (hp : plainCh ch = true) (s : St) :
-    (match Impl.eval true fl ch s with
-     | .error (r, s') => Spec.eval fl ch s.log = .error (r, s'.log)
-     | .ok (v, s') => ∃ c, v = .pipe c ∧ Spec.eval fl ch s.log = .ok (s'.log, c)) := by
+/-- the value of a chain in TAIL position: finished (`pipe`), or the lazy `!()` that is its last operand -/
+def TailRel (fl : Flags) (ch : Ch) (s : St) : Prop :=
+  match Impl.eval true fl ch s with
+  | .error (r, s') => Spec.eval fl ch s.log = .error (r, s'.log)
+  | .ok (v, s') =>
+    (∃ c, v = .pipe c ∧ Spec.eval fl ch s.log = .ok (s'.log, c)) ∨
+    (∃ m, v = .lazy (lastLeaf ch) m ∧ (lastLeaf ch).form = .object ∧ Spec.eval fl ch s.log =
+        if Spec.raisesAt fl (lastLeaf ch).rc (lastLeaf ch).dec
+        then .error (⟨(lastLeaf ch).rc, (lastLeaf ch).id⟩, s'.log) else .ok (s'.log, lastLeaf ch))
+
+/-- the same chain as the LEFT operand of and/or: its truth value is asked for, a lazy pipeline ends -/
+def DemandRel (fl : Flags) (ch : Ch) (s : St) : Prop :=
+  match ((match Impl.eval true fl ch s with
+          | Except.error e => Except.error e
+          | Except.ok (v, s') => Impl.demand true fl v s') : Except (Raised × St) (Impl.Val × St)) with
+  | Except.error (r, s') => Spec.eval fl ch s.log = Except.error (r, s'.log)
+  | Except.ok (v, s') => ∃ c, v = Impl.Val.pipe c ∧ Spec.eval fl ch s.log = Except.ok (s'.log, c)
+
+theorem demand_of_tail (fl : Flags) (ch : Ch) (s : St) (h : TailRel fl ch s) : DemandRel fl ch s := by
+  unfold TailRel at h
+  unfold DemandRel
+  cases hE : Impl.eval true fl ch s with
+  | error e => obtain ⟨r, s'⟩ := e; rw [hE] at h; exact h
+  | ok vs =>
+    obtain ⟨v, s'⟩ := vs
+    rw [hE] at h
+    simp only [] at h ⊢
+    rcases h with ⟨c, hv, hs⟩ | ⟨m, hv, _, hs⟩
+    · subst hv; simp only [Impl.demand]; exact ⟨c, rfl, hs⟩
+    · subst hv
+      simp only [Impl.demand, pipeRaise_eq]
+      cases hr : Spec.raisesAt fl (lastLeaf ch).rc (lastLeaf ch).dec
+      · simp only [hr, Bool.false_eq_true, if_false] at hs ⊢
+        exact ⟨lastLeaf ch, rfl, hs⟩
+      · simp only [hr, if_true] at hs ⊢
+        exact hs
+
+theorem eval_ref (fl : Flags) (ch : Ch) (hp : plainCh ch = true) (s : St) : TailRel fl ch s := by
   induction ch generalizing s with
   | cmd c =>
     have hp' : c.form = .hidden ∨ c.form = .object := by
       simp only [plainCh, Bool.or_eq_true, beq_iff_eq] at hp; exact hp
     have h := cmd_ref fl (!c.pyLike) c s hp'
-    simp only [Impl.eval, Spec.eval]
+    unfold TailRel
+    simp only [Impl.eval, Spec.eval, lastLeaf]
     cases hI : Impl.runCmd true fl (!c.pyLike) c s with
     | error e => obtain ⟨r, s'⟩ := e; rw [hI] at h; simp only [] at h; simp [h, Except.map]
     | ok vs =>
       obtain ⟨v, s'⟩ := vs; rw [hI] at h; simp only [] at h
-      exact ⟨c, h.2, by simp [h.1, Except.map]⟩
+      rcases h with ⟨hv, hs⟩ | ⟨hv, hf, hs⟩
+      · exact Or.inl ⟨c, hv, by simp [hs, Except.map]⟩
+      · refine Or.inr ⟨!c.pyLike, hv, hf, ?_⟩
+        rw [hs]
+        by_cases hr : Spec.raisesAt fl c.rc c.dec = true
+        · simp [hr, Except.map]
+        · simp [hr, Except.map]
   | and a b iha ihb =>
     simp only [plainCh, Bool.and_eq_true] at hp
-    have ha := iha hp.1 s
-    simp only [Impl.eval, Spec.eval]
+    have ha := demand_of_tail fl a s (iha hp.1 s)
+    unfold DemandRel at ha
+    unfold TailRel
+    simp only [Impl.eval, Spec.eval, lastLeaf]
     cases hA : Impl.eval true fl a s with
     | error e => obtain ⟨r, s'⟩ := e; rw [hA] at ha; simp only [] at ha; simp [ha]
     | ok vs =>
-      obtain ⟨v, s'⟩ := vs; rw [hA] at ha; simp only [] at ha
-      obtain ⟨c, hv, hs⟩ := ha
-      subst hv
-      simp only [hs]
-      by_cases hc : (c.rc == 0) = true
-      · have ht : Impl.truthy (.pipe c) = true := hc
-        rw [if_pos ht, if_pos hc]; exact ihb hp.2 s'
-      · have ht : ¬ Impl.truthy (.pipe c) = true := hc
-        rw [if_neg ht, if_neg hc]; exact ⟨c, rfl, rfl⟩
+      obtain ⟨v, s1⟩ := vs; rw [hA] at ha; simp only [] at ha ⊢
+      cases hD : Impl.demand true fl v s1 with
+      | error e => obtain ⟨r, s'⟩ := e; rw [hD] at ha; simp only [] at ha; simp [ha]
+      | ok vs2 =>
+        obtain ⟨v2, s2⟩ := vs2; rw [hD] at ha; simp only [] at ha ⊢
+        obtain ⟨c, hv, hs⟩ := ha
+        subst hv
+        simp only [hs]
+        by_cases hc : (c.rc == 0) = true
+        · have ht : Impl.truthy (.pipe c) = true := hc
+          rw [if_pos ht, if_pos hc]
+          have := ihb hp.2 s2
+          unfold TailRel at this
+          exact this
+        · have ht : ¬ Impl.truthy (.pipe c) = true := hc
+          rw [if_neg ht, if_neg hc]
+          exact Or.inl ⟨c, rfl, rfl⟩
   | or a b iha ihb =>
     simp only [plainCh, Bool.and_eq_true] at hp
-    have ha := iha hp.1 s
-    simp only [Impl.eval, Spec.eval]
+    have ha := demand_of_tail fl a s (iha hp.1 s)
+    unfold DemandRel at ha
+    unfold TailRel
+    simp only [Impl.eval, Spec.eval, lastLeaf]
     cases hA : Impl.eval true fl a s with
     | error e => obtain ⟨r, s'⟩ := e; rw [hA] at ha; simp only [] at ha; simp [ha]
     | ok vs =>
-      obtain ⟨v, s'⟩ := vs; rw [hA] at ha; simp only [] at ha
-      obtain ⟨c, hv, hs⟩ := ha
-      subst hv
-      simp only [hs]
-      by_cases hc : (c.rc == 0) = true
-      · have ht : Impl.truthy (.pipe c) = true := hc
-        rw [if_pos ht, if_pos hc]; exact ⟨c, rfl, rfl⟩
-      · have ht : ¬ Impl.truthy (.pipe c) = true := hc
-        rw [if_neg ht, if_neg hc]; exact ihb hp.2 s'
+      obtain ⟨v, s1⟩ := vs; rw [hA] at ha; simp only [] at ha ⊢
+      cases hD : Impl.demand true fl v s1 with
+      | error e => obtain ⟨r, s'⟩ := e; rw [hD] at ha; simp only [] at ha; simp [ha]
+      | ok vs2 =>
+        obtain ⟨v2, s2⟩ := vs2; rw [hD] at ha; simp only [] at ha ⊢
+        obtain ⟨c, hv, hs⟩ := ha
+        subst hv
+        simp only [hs]
+        by_cases hc : (c.rc == 0) = true
+        · have ht : Impl.truthy (.pipe c) = true := hc
+          rw [if_pos ht, if_pos hc]
+          exact Or.inl ⟨c, rfl, rfl⟩
+        · have ht : ¬ Impl.truthy (.pipe c) = true := hc
+          rw [if_neg ht, if_neg hc]
+          have := ihb hp.2 s2
+          unfold TailRel at this
+          exact this
 
-theorem checkBoolop_last (fl : Flags) (v : Impl.Val) (hv : ∀ c, v ≠ .pipe c) (l : List Nat) (id rc : Nat) (f : Form) (d : Dec) :
+theorem checkBoolop_last (fl : Flags) (v : Impl.Val) (hv : (∀ c, v ≠ .pipe c) ∧ (∀ c m, v ≠ .lazy c m)) (l : List Nat) (id rc : Nat) (f : Form) (d : Dec) :
     Impl.checkBoolop fl v ⟨l, some (id, rc, f, d)⟩ = if Spec.raisesFinal fl rc f d then some ⟨rc, id⟩ else none := by
   unfold Impl.checkBoolop Spec.raisesFinal
   cases v with
-  | pipe c => exact absurd rfl (hv c)
+  | pipe c => exact absurd rfl (hv.1 c)
+  | lazy c m => exact absurd rfl (hv.2 c m)
   | none => cases hr : fl.raiseErr <;> cases f <;> cases d <;> cases h : (rc == 0) <;> simp_all
   | str b => cases hr : fl.raiseErr <;> cases f <;> cases d <;> cases h : (rc == 0) <;> simp_all
+
+theorem checkBoolop_lazy (fl : Flags) (c : Cmd) (m : Bool) (s : St) (hf : c.form = .object) :
+    Impl.checkBoolop fl (.lazy c m) s = none := by
+  unfold Impl.checkBoolop facts
+  cases hr : fl.raiseErr <;> cases hd : c.dec <;> cases h : (c.rc == 0) <;> simp_all
 
 theorem raisesFinal_object (fl : Flags) (rc : Nat) (d : Dec) : Spec.raisesFinal fl rc .object d = false := by
   simp [Spec.raisesFinal]
 
 /-- a standalone command in any capture form -/
-theorem single_ref (fl : Flags) (c : Cmd) (s : St) :
+theorem single_ref (fl : Flags) (c : Cmd) (s : St) (hq : quiet fl c = true) :
     (Impl.stmt true fl (.cmd c) s).1.log = (Spec.stmt fl (.cmd c) s.log).1 ∧
     (Impl.stmt true fl (.cmd c) s).2 = (Spec.stmt fl (.cmd c) s.log).2 := by
   simp only [Impl.stmt, Spec.stmt, Spec.eval, Impl.runCmd, Spec.runCmd]
@@ -145,51 +230,71 @@ theorem single_ref (fl : Flags) (c : Cmd) (s : St) :
   | ok s1 =>
     rw [hI] at hi; simp only [] at hi
     simp only [hi, pipeRaise_eq, Except.map, facts, helperRaise_eq]
-    cases h1 : Spec.raisesAt fl c.rc c.dec
-    · simp only [Bool.false_eq_true, if_false]
-      cases hf : c.form
-      · -- hidden
-        simp only [checkBoolop_pipe, hf]
-        cases h2 : Spec.raisesFinal fl c.rc Form.hidden c.dec <;> simp
-      · -- uncaptured
-        cases h2 : Spec.raisesFinal fl c.rc Form.uncaptured c.dec
-        · simp [checkBoolop_last, h2]
-        · simp
-      · -- stdout
-        cases h2 : Spec.raisesFinal fl c.rc Form.stdout c.dec
-        · simp [checkBoolop_last, h2]
-        · simp
-      · -- object
-        simp [raisesFinal_object]
-    · simp
+    cases hf : c.form
+    · -- hidden
+      cases h1 : Spec.raisesAt fl c.rc c.dec
+      · cases h2 : Spec.raisesFinal fl c.rc Form.hidden c.dec <;> simp [checkBoolop_pipe, hf, h2]
+      · simp
+    · -- uncaptured
+      cases h1 : Spec.raisesAt fl c.rc c.dec
+      · cases h2 : Spec.raisesFinal fl c.rc Form.uncaptured c.dec
+        · simp [checkBoolop_last, hf, h2]
+        · simp [hf, h2]
+      · simp
+    · -- stdout
+      cases h1 : Spec.raisesAt fl c.rc c.dec
+      · cases h2 : Spec.raisesFinal fl c.rc Form.stdout c.dec
+        · simp [checkBoolop_last, hf, h2]
+        · simp [hf, h2]
+      · simp
+    · -- object: lazy; quiet says its end would not raise
+      have h1 : Spec.raisesAt fl c.rc c.dec = false := by
+        simp only [quiet, hf, beq_self_eq_true, Bool.true_and, Bool.not_eq_true'] at hq; exact hq
+      simp [h1, hf, raisesFinal_object]
 
-theorem stmt_ref (fl : Flags) (ch : Ch) (hp : plainStmt ch = true) (s : St) :
+theorem chain_ref (fl : Flags) (ch : Ch) (hch : ∀ c, ch ≠ .cmd c) (hp : plainCh ch = true) (hq : quiet fl (lastLeaf ch) = true) (s : St) :
+    (Impl.stmt true fl ch s).1.log = (Spec.stmt fl ch s.log).1 ∧
+    (Impl.stmt true fl ch s).2 = (Spec.stmt fl ch s.log).2 := by
+  have h := eval_ref fl ch hp s
+  unfold TailRel at h
+  have hstmt : Impl.stmt true fl ch s =
+      match Impl.eval true fl ch s with
+      | .error (r, s) => (s, some r)
+      | .ok (v, s) => (s, Impl.checkBoolop fl v s) := by
+    cases ch with
+    | cmd c => exact absurd rfl (hch c)
+    | and a b => rfl
+    | or a b => rfl
+  rw [hstmt]
+  simp only [Spec.stmt]
+  cases hE : Impl.eval true fl ch s with
+  | error e => obtain ⟨r, s'⟩ := e; rw [hE] at h; simp only [] at h; simp [h]
+  | ok vs =>
+    obtain ⟨v, s'⟩ := vs; rw [hE] at h; simp only [] at h
+    rcases h with ⟨c, hv, hs⟩ | ⟨m, hv, hform, hs⟩
+    · subst hv
+      simp only [hs, checkBoolop_pipe]
+      split <;> simp
+    · subst hv
+      -- the last operand is a lazy `!()`; quiet says its end would not raise
+      have hr : Spec.raisesAt fl (lastLeaf ch).rc (lastLeaf ch).dec = false := by
+        simp only [quiet, hform, beq_self_eq_true, Bool.true_and, Bool.not_eq_true'] at hq; exact hq
+      simp only [hr, Bool.false_eq_true, if_false] at hs
+      simp [hs, checkBoolop_lazy _ _ _ _ hform, hform, raisesFinal_object]
+
+theorem stmt_ref (fl : Flags) (ch : Ch) (hp : plainStmt fl ch = true) (s : St) :
     (Impl.stmt true fl ch s).1.log = (Spec.stmt fl ch s.log).1 ∧
     (Impl.stmt true fl ch s).2 = (Spec.stmt fl ch s.log).2 := by
   cases ch with
-  | cmd c => exact single_ref fl c s
+  | cmd c =>
+    simp only [plainStmt, lastLeaf, Bool.true_and] at hp
+    exact single_ref fl c s hp
   | and a b =>
-    have h := eval_ref fl (.and a b) hp s
-    simp only [Impl.stmt, Spec.stmt, Bool.false_eq_true, if_false]
-    cases hE : Impl.eval true fl (.and a b) s with
-    | error e => obtain ⟨r, s'⟩ := e; rw [hE] at h; simp only [] at h; simp [h]
-    | ok vs =>
-      obtain ⟨v, s'⟩ := vs; rw [hE] at h; simp only [] at h
-      obtain ⟨c, hv, hs⟩ := h
-      subst hv
-      simp only [hs, checkBoolop_pipe]
-      split <;> simp
+    simp only [plainStmt, Bool.and_eq_true] at hp
+    exact chain_ref fl (.and a b) (by intro c h; cases h) hp.1 hp.2 s
   | or a b =>
-    have h := eval_ref fl (.or a b) hp s
-    simp only [Impl.stmt, Spec.stmt, Bool.false_eq_true, if_false]
-    cases hE : Impl.eval true fl (.or a b) s with
-    | error e => obtain ⟨r, s'⟩ := e; rw [hE] at h; simp only [] at h; simp [h]
-    | ok vs =>
-      obtain ⟨v, s'⟩ := vs; rw [hE] at h; simp only [] at h
-      obtain ⟨c, hv, hs⟩ := h
-      subst hv
-      simp only [hs, checkBoolop_pipe]
-      split <;> simp
+    simp only [plainStmt, Bool.and_eq_true] at hp
+    exact chain_ref fl (.or a b) (by intro c h; cases h) hp.1 hp.2 s
 
 /-- C05, PARTIAL (the full statement also quantifies over `$[]` / `$()` operands, where it is false:
 `C05_cex_uncaptured`, `C05_cex_stdout`).  For EVERY program — any number of statements, any nesting
@@ -197,14 +302,14 @@ and length of and/or chains, any exit codes, decorators, pipelines, injected `@$
 raise flags, marked and unmarked (Python-looking) operands — whose chain operands are bare / `![]`
 / `!()` commands, the commands the implementation runs, in order, and the CalledProcessError that
 escapes are exactly those of the documented truth table. -/
-theorem C05_refines_partial (fl : Flags) (p : List Ch) (hp : ∀ ch ∈ p, plainStmt ch = true) (s : St) :
+theorem C05_refines_partial (fl : Flags) (p : List Ch) (hp : ∀ ch ∈ p, plainStmt fl ch = true) (s : St) :
     (Impl.prog true fl false p s).1.log = (Spec.prog fl p s.log).1 ∧
     (Impl.prog true fl false p s).2 = (Spec.prog fl p s.log).2 := by
   induction p generalizing s with
   | nil => simp [Impl.prog, Spec.prog]
   | cons c cs ih =>
     have h := stmt_ref fl c (hp c (List.mem_cons_self ..)) s
-    have hcs : ∀ ch ∈ cs, plainStmt ch = true := fun ch hc => hp ch (List.mem_cons_of_mem _ hc)
+    have hcs : ∀ ch ∈ cs, plainStmt fl ch = true := fun ch hc => hp ch (List.mem_cons_of_mem _ hc)
     simp only [Impl.prog, Spec.prog]
     rcases hI : Impl.stmt true fl c s with ⟨s1, r1⟩
     rcases hS : Spec.stmt fl c s.log with ⟨l2, r2⟩
@@ -217,7 +322,7 @@ theorem C05_refines_partial (fl : Flags) (p : List Ch) (hp : ∀ ch ∈ p, plain
     | none => simp only []; rw [← h1]; exact ih hcs s1
 
 /-- from a fresh session -/
-theorem C05_refines_from_start (fl : Flags) (p : List Ch) (hp : ∀ ch ∈ p, plainStmt ch = true) :
+theorem C05_refines_from_start (fl : Flags) (p : List Ch) (hp : ∀ ch ∈ p, plainStmt fl ch = true) :
     ((Impl.prog true fl false p St.init).1.log, (Impl.prog true fl false p St.init).2) = Spec.prog fl p [] := by
   have h := C05_refines_partial fl p hp St.init
   exact Prod.ext h.1 h.2
@@ -270,6 +375,13 @@ theorem C05_old_rule_cex_cmd_raise :
     Spec.prog ⟨true, true⟩ p [] = ([1], some ⟨1, 1⟩) ∧
     (Impl.prog true ⟨true, true⟩ false p St.init).2 = some ⟨1, 1⟩ := by decide
 
+/-- KNOWN FINDING `lazy-object-never-ends-in-statement`: `t b 1 || !(@error_raise t c 1)` — the docs say
+`!(@error_raise …)` raises; as the last operand nobody asks for its result inside the statement -/
+theorem C05_cex_lazy_object :
+    let p := [Ch.or (.cmd (mk 1 1 .hidden)) (.cmd (mk 2 1 .object false .raise))]
+    Impl.prog true ⟨true, false⟩ false p St.init = (⟨[1, 2], some (2, 1, .object, .raise)⟩, none) ∧
+    Spec.prog ⟨true, false⟩ p [] = ([1, 2], some ⟨1, 2⟩) := by decide
+
 /-- the known sub-chain drop, as `collapse` describes it: `(a && f0 -c) && d` runs c and d only -/
 theorem C05_cex_subchain_drop :
     let py : Cmd := ⟨2, 0, .hidden, .none, false, true, [], []⟩
@@ -284,5 +396,5 @@ example :
     let c : Cmd := ⟨3, 2, .hidden, .ignore, false, true, [], []⟩
     let d : Cmd := ⟨4, 3, .hidden, .none, false, false, [], []⟩
     let p := [Ch.and (.or (.cmd a) (.cmd b)) (.cmd c), .cmd (mk 5 0 .stdout true), .or (.cmd d) (.cmd (mk 6 0 .hidden)), .cmd d, .cmd (mk 9 0 .hidden)]
-    (∀ ch ∈ p, plainStmt ch = true) ∧
+    (∀ ch ∈ p, plainStmt ⟨true, false⟩ ch = true) ∧
     Spec.prog ⟨true, false⟩ p [] = ([7, 1, 8, 2, 3, 5, 4, 6, 4], some ⟨3, 4⟩) := by decide
